@@ -42,6 +42,7 @@ def strategy(tier):
       # long enough for a jitter round of the aperture (when the configuration has one) to come and go
       (2, st.tuples(st.just('advance'), st.sampled_from([1200, 2600])).map(list)),
       (2, st.tuples(st.just('flap_pending'), st.integers(0, 3)).map(list)),
+      (2, st.tuples(st.just('expire_parked'), st.integers(0, 5)).map(list)),
   ]
   cfg = lb_config().flatmap(lambda c: st.tuples(st.sampled_from([0, 0, 3, 10, 20]),
                                                 st.sampled_from([None, None, None, ['error', 1], ['timeout', 1], ['timeout', 2]])).map(
